@@ -53,27 +53,31 @@ func genRetryCfg(r *Rng, mode string) string {
 	maxD := Pick(r, []int64{0, 1000, 3000, 20_000, 200_000})
 	factor := Pick(r, []float64{1, 1.5, 2, 3, 10, 1.1, 1.0000001, 2.5, 1e200})
 	if mode == "excluded" {
-		switch r.Intn(5) {
-		case 0:
+		// configurations NewDatabaseRecovery has to sanitise (alone and combined)
+		pick := r.Intn(7)
+		if pick == 0 || r.Chance(1, 4) {
 			maxA = Pick(r, []int{0, -1, -7})
-		case 1:
-			factor = Pick(r, []float64{0.5, 0.9, 0.25, 0, 0.999})
+		}
+		if pick == 1 || r.Chance(1, 4) {
+			factor = Pick(r, []float64{0.5, 0.9, 0.25, 0, 0.999, -2, math.NaN(), math.Inf(-1), -1e300})
 			base = Pick(r, []int64{1000, 2000, 50_000, 4096})
-			maxA = r.Range(2, 5)
-		case 2:
+		}
+		if pick == 2 || r.Chance(1, 4) {
 			base = Pick(r, []int64{-1, -1000, -50_000})
-			factor = Pick(r, []float64{1, 2, 3, 1.5})
-			maxA = r.Range(2, 5)
-		case 3:
+		}
+		if pick == 3 || r.Chance(1, 4) {
 			maxD = Pick(r, []int64{-1, -1000})
-			maxA = r.Range(2, 5)
-		case 4:
+		}
+		if pick == 4 {
 			base = 0
-			factor = Pick(r, []float64{1e200, 1e308, 1e155})
+			factor = Pick(r, []float64{1e200, 1e308, 1e155, math.Inf(1)})
+		}
+		if pick == 5 {
+			factor = Pick(r, []float64{math.Inf(1), 1e308, 1e300})
+		}
+		if maxA > 0 && maxA < 3 {
 			maxA = r.Range(3, 5)
 		}
-	} else if base == 0 && factor > 1e100 {
-		factor = 10 // 0 * (+Inf) = NaN: float corner kept for the `excluded` stream
 	}
 	return "cfg " + Itoa(maxA) + " " + Itoa64(base) + " " + Itoa64(maxD) + " " + F(factor)
 }
@@ -371,14 +375,13 @@ func sameStrings(a, b []string) bool {
 
 func execRetry(ops []string, mon *Mon) []string {
 	env := &retryEnv{cfg: recovery.RetryConfig{MaxAttempts: 1}}
-	strict := os.Getenv("C15_STRICT") != ""
 	out := make([]string, 0, len(ops))
 	for _, o := range ops {
 		f := strings.Fields(o)
 		switch {
 		case f[0] == "cfg" && len(f) == 2 && f[1] == "default":
 			env.cfg, env.cfgSet = recovery.DefaultRetryConfig(), true
-			out = append(out, execCfg(env, mon, o, strict))
+			out = append(out, execCfg(env, mon, o))
 		case f[0] == "cfg" && len(f) == 5 && strings.HasPrefix(f[4], "f:"):
 			bits, err := strconv.ParseUint(f[4][2:], 16, 64)
 			if err != nil {
@@ -388,7 +391,7 @@ func execRetry(ops []string, mon *Mon) []string {
 			env.cfg = recovery.RetryConfig{MaxAttempts: Atoi(f[1]), BaseDelay: time.Duration(Atoi64(f[2])),
 				MaxDelay: time.Duration(Atoi64(f[3])), BackoffFactor: math.Float64frombits(bits)}
 			env.cfgSet = true
-			out = append(out, execCfg(env, mon, o, strict))
+			out = append(out, execCfg(env, mon, o))
 		case f[0] == "load" && len(f) == 4:
 			out = append(out, execLoad(env, mon, o, f[1], f[2], f[3]))
 		case f[0] == "lwp" && len(f) == 3:
@@ -414,69 +417,67 @@ func execRetry(ops []string, mon *Mon) []string {
 	return out
 }
 
-func execCfg(env *retryEnv, mon *Mon, op string, strict bool) string {
+func execCfg(env *retryEnv, mon *Mon, op string) string {
 	dr := recovery.NewDatabaseRecovery(env.cfg)
 	var sb strings.Builder
 	sb.WriteString("cfg")
 	ds := make([]time.Duration, 6)
-	c := env.cfg
-	// Float corner outside the rational model: BaseDelay == 0 and BackoffFactor^(attempt-1) overflowing
-	// float64 gives 0 * +Inf = NaN, and time.Duration(NaN) is implementation-defined (MinInt64 on amd64).
-	// Those positions are printed as d:nan (the driver decides the same region exactly); what the real
-	// code returned there is reported by the monitor below.
-	nanPos := make([]bool, 6)
-	nanSeen := false
 	for i := 1; i <= 6; i++ {
 		ds[i-1] = dr.VerifCalculateDelay(i)
-		nanPos[i-1] = c.BaseDelay == 0 && math.IsInf(math.Pow(c.BackoffFactor, float64(i-1)), 0)
-		if nanPos[i-1] {
-			sb.WriteString(" d:nan")
-			if ds[i-1] != 0 {
-				if !nanSeen {
-					mon.Tag("excluded.zero-base-float-overflow.nan-delay")
-					nanSeen = true
-				}
-				if strict {
-					mon.Hit("C15", "delay-nan-zero-base-float-overflow", map[string]interface{}{"op": op, "attempt": i, "delay_ns": int64(ds[i-1])})
-				}
-			}
-		} else {
-			sb.WriteString(" d:" + Itoa64(int64(ds[i-1])))
-		}
+		sb.WriteString(" d:" + Itoa64(int64(ds[i-1])))
 	}
-	regular := c.BackoffFactor >= 1 && c.BaseDelay >= 0
-	// monitor: the property's clauses on the real delay sequence
+	// monitor: "waits that never decrease and never exceed the configured maximum", for EVERY configuration
+	// the caller may pass (the configured maximum counts as 0 when negative; waits are never negative).
+	c := env.cfg
+	capNs := c.MaxDelay
+	if capNs < 0 {
+		capNs = 0
+	}
+	detail := func(i int) map[string]interface{} {
+		return map[string]interface{}{"op": op, "attempt": i + 1, "delays_ns": ds, "max_attempts": c.MaxAttempts, "base_ns": int64(c.BaseDelay),
+			"max_ns": int64(c.MaxDelay), "factor": fmt.Sprint(c.BackoffFactor)}
+	}
+	// which nonsensical setting explains a failure (class names kept from the time these were open findings)
+	why := func(generic string) string {
+		switch {
+		case !(c.BackoffFactor >= 1):
+			return "delays-decrease-factor-below-one"
+		case c.BaseDelay < 0:
+			return "delays-decrease-negative-base"
+		case c.BaseDelay == 0 && math.IsInf(math.Pow(c.BackoffFactor, 5), 0):
+			return "delay-nan-zero-base-float-overflow"
+		}
+		return generic
+	}
 	for i, d := range ds {
-		if nanPos[i] {
+		if d > capNs {
+			mon.Hit("C15", "delay-exceeds-max", detail(i))
 			break
 		}
-		if d > c.MaxDelay {
-			mon.Hit("C15", "delay-exceeds-max", map[string]interface{}{"op": op, "attempt": i + 1, "delay_ns": int64(d), "max_ns": int64(c.MaxDelay)})
+		if d < 0 {
+			mon.Hit("C15", why("negative-delay"), detail(i))
+			break
 		}
 		if i > 0 && d < ds[i-1] {
-			switch {
-			case regular:
-				mon.Hit("C15", "delays-decrease", map[string]interface{}{"op": op, "attempt": i + 1, "delay_ns": int64(d), "previous_ns": int64(ds[i-1])})
-			case c.BackoffFactor < 1:
-				mon.Tag("excluded.factor-below-one.delays-decrease")
-				if strict {
-					mon.Hit("C15", "delays-decrease-factor-below-one", map[string]interface{}{"op": op, "delays_ns": ds})
-				}
-			default:
-				mon.Tag("excluded.negative-base.delays-decrease")
-				if strict {
-					mon.Hit("C15", "delays-decrease-negative-base", map[string]interface{}{"op": op, "delays_ns": ds})
-				}
-			}
+			mon.Hit("C15", why("delays-decrease"), detail(i))
 			break
 		}
 	}
-	if c.MaxAttempts <= 0 {
+	switch {
+	case c.MaxAttempts <= 0:
 		mon.Tag("cfg.nonpositive-max-attempts")
-	} else if regular && c.MaxDelay >= 0 {
+	case !(c.BackoffFactor >= 1):
+		mon.Tag("cfg.factor-below-one-or-nan")
+	case c.BaseDelay < 0:
+		mon.Tag("cfg.negative-base")
+	case c.MaxDelay < 0:
+		mon.Tag("cfg.negative-cap")
+	case c.BaseDelay == 0 && math.IsInf(math.Pow(c.BackoffFactor, 5), 0):
+		mon.Tag("cfg.zero-base-float-overflow")
+	case math.IsInf(c.BackoffFactor, 1):
+		mon.Tag("cfg.infinite-factor")
+	default:
 		mon.Tag("cfg.regular")
-	} else {
-		mon.Tag("cfg.excluded-delays")
 	}
 	return sb.String()
 }
@@ -588,22 +589,24 @@ func execLoad(env *retryEnv, mon *Mon, op, ms, ps, bs string) string {
 	mon.Tag("cls." + cls)
 	mon.Tag("attempts." + Itoa(attempts))
 	mon.Tag("main." + specs[0].kind + tern(specs[0].isFl, ".flaky", ""))
+	// the number of attempts the configuration permits: at least one, whatever the caller asked for
 	maxA := env.cfg.MaxAttempts
-	if maxA <= 0 {
-		// excluded point: reported under its own class
-		if db == nil && lerr == nil {
-			mon.Hit("C15", "nonpositive-max-attempts", detail(nil))
-		} else if db == nil || lerr != nil {
-			mon.Hit("C15", "load-failed", detail(nil))
-		}
-		return line
+	if maxA < 1 {
+		maxA = 1
 	}
 	if lerr != nil {
 		mon.Hit("C15", "load-returned-error", detail(nil))
 	}
 	if db == nil {
-		mon.Hit("C15", "nil-database", detail(nil))
+		if env.cfg.MaxAttempts <= 0 && lerr == nil {
+			mon.Hit("C15", "nonpositive-max-attempts", detail(nil))
+		} else {
+			mon.Hit("C15", "nil-database", detail(nil))
+		}
 		return line
+	}
+	if attempts < 1 {
+		mon.Hit("C15", "no-attempt-made", detail(nil))
 	}
 	if attempts > maxA {
 		mon.Hit("C15", "too-many-attempts", detail(nil))
